@@ -5,26 +5,31 @@
 (* (harness/fnlib.py); the two are cross-checked on their whole finite     *)
 (* domain by bin/setup.                                                    *)
 (*                                                                         *)
-(* Values are records whose tag field `k` sorts first, so that TLC can     *)
-(* compare values of different kinds without raising:                      *)
-(*   [k|->"i",v|->3] int      [k|->"n"] None        [k|->"b",v|->TRUE]    *)
-(*   [k|->"t",v|-><<..>>] tuple   [k|->"l",v|-><<..>>] list                *)
-(*   [k|->"q",n|->1,d|->3] rational (normalised, d>1)                      *)
-(*   [k|->"x",v|->7] exception token (VerifError(7))                       *)
+(* Values are tuples <<tag, payload>>: TLC compares tuples element by      *)
+(* element, left to right, and by length first, so values of different     *)
+(* kinds compare FALSE without TLC raising (records do not guarantee the   *)
+(* field order of the comparison):                                         *)
+(*   <<"i",3>> int    <<"n">> None    <<"b",TRUE>>    <<"s","abc">>         *)
+(*   <<"t",<<..>>>> tuple   <<"l",<<..>>>> list                            *)
+(*   <<"q",1,3>> rational (normalised, d>1)                                *)
+(*   <<"x",7>> exception token (VerifError(7))   <<"f","repr">> other      *)
 (* A function descriptor is [n |-> name, c |-> integer parameter].         *)
 (***************************************************************************)
 EXTENDS Integers, Sequences, FiniteSets, TLC
 
-IntV(n) == [k |-> "i", v |-> n]
-None == [k |-> "n"]
-BoolV(b) == [k |-> "b", v |-> b]
-TupV(s) == [k |-> "t", v |-> s]
-LstV(s) == [k |-> "l", v |-> s]
-ErrV(c) == [k |-> "x", v |-> c]
+IntV(n) == <<"i", n>>
+None == <<"n">>
+BoolV(b) == <<"b", b>>
+TupV(s) == <<"t", s>>
+LstV(s) == <<"l", s>>
+ErrV(c) == <<"x", c>>
 
-IsErr(v)  == v.k = "x"
-IsInt(v)  == v.k = "i"
-IsNone(v) == v.k = "n"
+Kind(v) == v[1]
+V(v) == v[2]
+IsErr(v)  == v[1] = "x"
+IsInt(v)  == v[1] = "i"
+IsNone(v) == v[1] = "n"
+IsIntEq(v, c) == v[1] = "i" /\ v[2] = c
 
 RECURSIVE Gcd(_, _)
 Gcd(a, b) == IF b = 0 THEN a ELSE Gcd(b, a % b)
@@ -36,10 +41,10 @@ RatV(n, d) ==
         g == Gcd(Abs(n), Abs(d))
         nn == (s * n) \div g
         dd == (s * d) \div g
-    IN IF dd = 1 THEN IntV(nn) ELSE [k |-> "q", n |-> nn, d |-> dd]
+    IN IF dd = 1 THEN IntV(nn) ELSE <<"q", nn, dd>>
 
-Num(v) == IF v.k = "i" THEN v.v ELSE v.n
-Den(v) == IF v.k = "i" THEN 1 ELSE v.d
+Num(v) == v[2]
+Den(v) == IF v[1] = "i" THEN 1 ELSE v[3]
 QAdd(a, b) == RatV(Num(a) * Den(b) + Num(b) * Den(a), Den(a) * Den(b))
 QLess(a, b) == Num(a) * Den(b) < Num(b) * Den(a)
 
@@ -49,55 +54,55 @@ Fn(n, c) == [n |-> n, c |-> c]
 (* unary functions: mappers, key functions, terminators, error mappers *)
 Apply(f, x) ==
     CASE f.n = "id"      -> x
-      [] f.n = "addc"    -> IntV(x.v + f.c)
-      [] f.n = "mulc"    -> IntV(x.v * f.c)
-      [] f.n = "modc"    -> IntV(x.v % f.c)
-      [] f.n = "divc"    -> IntV(x.v \div f.c)
+      [] f.n = "addc"    -> IntV(V(x) + f.c)
+      [] f.n = "mulc"    -> IntV(V(x) * f.c)
+      [] f.n = "modc"    -> IntV(V(x) % f.c)
+      [] f.n = "divc"    -> IntV(V(x) \div f.c)
       [] f.n = "constc"  -> IntV(f.c)
       [] f.n = "dup"     -> TupV(<<x, x>>)
-      [] f.n = "fst"     -> x.v[1]
-      [] f.n = "snd"     -> x.v[2]
-      [] f.n = "noneIf"  -> IF x = IntV(f.c) THEN None ELSE x
-      [] f.n = "failIf"  -> IF x = IntV(f.c) THEN ErrV(f.c) ELSE x
-      [] f.n = "failMod" -> IF IsInt(x) /\ x.v % 3 = f.c THEN ErrV(x.v) ELSE x
-      [] f.n = "list3"   -> LstV(<<x, IntV(x.v + 10), IntV(x.v + 20)>>)
-      [] f.n = "listn"   -> LstV([j \in 1..(x.v % 3) |-> IntV(x.v * 10 + j)])
-      [] f.n = "errcode" -> IntV(x.v)            \* error mapper: VerifError(c) -> c
+      [] f.n = "fst"     -> V(x)[1]
+      [] f.n = "snd"     -> V(x)[2]
+      [] f.n = "noneIf"  -> IF IsIntEq(x, f.c) THEN None ELSE x
+      [] f.n = "failIf"  -> IF IsIntEq(x, f.c) THEN ErrV(f.c) ELSE x
+      [] f.n = "failMod" -> IF IsInt(x) /\ V(x) % 3 = f.c THEN ErrV(V(x)) ELSE x
+      [] f.n = "list3"   -> LstV(<<x, IntV(V(x) + 10), IntV(V(x) + 20)>>)
+      [] f.n = "listn"   -> LstV([j \in 1..(V(x) % 3) |-> IntV(V(x) * 10 + j)])
+      [] f.n = "errcode" -> IntV(V(x))            \* error mapper: VerifError(c) -> c
       [] f.n = "errconst" -> IntV(f.c)
 
-(* predicates: return TRUE / FALSE / an exception token *)
+(* predicates: return BoolV(TRUE) / BoolV(FALSE) / an exception token *)
 Test(p, x) ==
-    CASE p.n = "true"    -> TRUE
-      [] p.n = "false"   -> FALSE
-      [] p.n = "even"    -> x.v % 2 = 0
-      [] p.n = "ltc"     -> x.v < p.c
-      [] p.n = "gec"     -> x.v >= p.c
-      [] p.n = "nec"     -> x # IntV(p.c)
-      [] p.n = "notNone" -> ~IsNone(x)
-      [] p.n = "failIfP" -> IF x = IntV(p.c) THEN ErrV(p.c) ELSE TRUE
-      [] p.n = "sndTrue" -> x.v[2] = BoolV(TRUE)
+    CASE p.n = "true"    -> BoolV(TRUE)
+      [] p.n = "false"   -> BoolV(FALSE)
+      [] p.n = "even"    -> BoolV(V(x) % 2 = 0)
+      [] p.n = "ltc"     -> BoolV(V(x) < p.c)
+      [] p.n = "gec"     -> BoolV(V(x) >= p.c)
+      [] p.n = "nec"     -> BoolV(~IsIntEq(x, p.c))
+      [] p.n = "notNone" -> BoolV(~IsNone(x))
+      [] p.n = "failIfP" -> IF IsIntEq(x, p.c) THEN ErrV(p.c) ELSE BoolV(TRUE)
+      [] p.n = "sndTrue" -> BoolV(V(x)[2] = BoolV(TRUE))
 
 (* binary accumulators: acc, item -> acc  (or an exception token) *)
 Apply2(f, a, x) ==
-    CASE f.n = "add"       -> IntV(a.v + x.v)
-      [] f.n = "cnt"       -> IntV(a.v + 1)
-      [] f.n = "max"       -> IF IsNone(a) \/ x.v > a.v THEN x ELSE a
-      [] f.n = "min"       -> IF IsNone(a) \/ x.v < a.v THEN x ELSE a
+    CASE f.n = "add"       -> IntV(V(a) + V(x))
+      [] f.n = "cnt"       -> IntV(V(a) + 1)
+      [] f.n = "max"       -> IF IsNone(a) \/ V(x) > V(a) THEN x ELSE a
+      [] f.n = "min"       -> IF IsNone(a) \/ V(x) < V(a) THEN x ELSE a
       [] f.n = "last"      -> x
-      [] f.n = "appendMut" -> LstV(Append(a.v, x))
-      [] f.n = "appendNew" -> LstV(Append(a.v, x))
-      [] f.n = "failAdd"   -> IF x = IntV(f.c) THEN ErrV(f.c) ELSE IntV(a.v + x.v)
-      [] f.n = "addsnd"    -> IntV(a.v + x.v[2].v)
+      [] f.n = "appendMut" -> LstV(Append(V(a), x))
+      [] f.n = "appendNew" -> LstV(Append(V(a), x))
+      [] f.n = "failAdd"   -> IF IsIntEq(x, f.c) THEN ErrV(f.c) ELSE IntV(V(a) + V(x))
+      [] f.n = "addsnd"    -> IntV(V(a) + V(V(x)[2]))
 
 (* binary predicates for assert_1: previous item, item *)
 Test2(p, a, x) ==
-    CASE p.n = "le"  -> a.v <= x.v
-      [] p.n = "lt"  -> a.v < x.v
+    CASE p.n = "le"  -> V(a) <= V(x)
+      [] p.n = "lt"  -> V(a) < V(x)
       [] p.n = "true" -> TRUE
 
 (* binary mappers for starmap on 2-tuples *)
 ApplyStar(f, x) ==
-    CASE f.n = "add2" -> IntV(x.v[1].v + x.v[2].v)
-      [] f.n = "swap" -> TupV(<<x.v[2], x.v[1]>>)
-      [] f.n = "fst2" -> x.v[1]
+    CASE f.n = "add2" -> IntV(V(V(x)[1]) + V(V(x)[2]))
+      [] f.n = "swap" -> TupV(<<V(x)[2], V(x)[1]>>)
+      [] f.n = "fst2" -> V(x)[1]
 =============================================================================
